@@ -16,10 +16,12 @@ Menu == << [ft |-> "sub", s |-> 1, e |-> 2, g |-> G1, t |-> T1, strand |-> Plus]
            [ft |-> "sub", s |-> 3, e |-> 5, g |-> G1, t |-> T2, strand |-> Plus],
            [ft |-> "other", s |-> 1, e |-> 2, g |-> G1, t |-> T1, strand |-> Plus],
            [ft |-> "other", s |-> 2, e |-> 3, g |-> G1, t |-> T2, strand |-> Plus],
-           [ft |-> "sub", s |-> 2, e |-> 2, g |-> G2, t |-> T3, strand |-> Minus],
+           [ft |-> "sub", s |-> 0, e |-> 2, g |-> G2, t |-> T3, strand |-> Minus],         \* (an exon that starts at coordinate 0)
            [ft |-> "transcript", s |-> 1, e |-> 6, g |-> G1, t |-> T1, strand |-> Plus],
            [ft |-> "gene", s |-> 1, e |-> 6, g |-> G1, t |-> <<>>, strand |-> Plus],
-           [ft |-> "transcript", s |-> 1, e |-> 3, g |-> G1, t |-> T2, strand |-> Plus] >>
+           [ft |-> "transcript", s |-> 1, e |-> 3, g |-> G1, t |-> T2, strand |-> Plus],
+           \* an exon line that carries the gene id but NO transcript id, outside the span of the gene's transcripts: it still is one of "all its exons"
+           [ft |-> "sub", s |-> 7, e |-> 8, g |-> G1, t |-> <<>>, strand |-> Plus] >>
 Variants == {[noT |-> a, noG |-> b, custom |-> c] : a \in BOOLEAN, b \in BOOLEAN, c \in {FALSE}} \cup {[noT |-> FALSE, noG |-> FALSE, custom |-> TRUE]}
 
 KeyT(v) == IF v.custom THEN CKeyT ELSE T_transcript_id
@@ -41,8 +43,13 @@ Init == sel \in UNION {Seqs(n) : n \in 1..(MaxLines - 1)} /\ v = [none |-> TRUE]
 Lines(s, vv) == [i \in 1..Len(s) |-> LineF(Menu[s[i]], vv)]
 View3(db) == [feats |-> {[id |-> f.id, ftype |-> f.ftype, seqid |-> f.seqid, strand |-> f.strand, start |-> f.start, end |-> f.end] : f \in ToSet(db.feats)},
               rels |-> db.rels]
+\* Domain: GTF requires a transcript_id on every exon line.  The transcript-less exon (menu line 10) is admitted only NEXT TO a regular exon of
+\* the same gene (lines 1-3): then the gene is derived anyway and "all its exons" includes line 10.  (A gene known ONLY from transcript-less
+\* lines is not derived by the importer - observed, outside the statement's domain, DESIGN section 6.)
+InDomain(s) == (10 \in ToSet(s)) => (ToSet(s) \cap {1, 2, 3} # {})
 Next == /\ ~done /\ done' = TRUE
         /\ \E last \in (0..Len(Menu)) \ ToSet(sel) : sel' = IF last = 0 THEN sel ELSE Append(sel, last)
+        /\ InDomain(sel')
         /\ v' \in Variants
         /\ res' = Create(Lines(sel', v'), <<>>, GtfDialect, Cfg(v'))
         /\ PrintT(ToJson([sel |-> sel', v |-> v', lines |-> Lines(sel', v'), st |-> res'.st, view |-> View3(res'.db),
@@ -76,10 +83,14 @@ InvGenes == OK => \A g \in Gs :
 \* relation levels: every non-gene/transcript line is a level-1 child of its transcript and a level-2 child of its gene; transcript under gene at level 1
 LineIds == [i \in 1..Len(sel) |-> DBF.feats[i].id]
 InvLevels == OK => /\ Len(DBF.feats) >= Len(sel)
-                   /\ \A i \in 1..Len(ML) : ML[i].ft \in {"sub", "other"} =>
+                   /\ \A i \in 1..Len(ML) : (ML[i].ft \in {"sub", "other"} /\ ML[i].t # <<>>) =>
                         /\ <<ML[i].t, LineIds[i], 1>> \in DBF.rels /\ <<ML[i].g, LineIds[i], 2>> \in DBF.rels
                         /\ <<ML[i].g, ML[i].t, 1>> \in DBF.rels
                         /\ \A r \in DBF.rels : r[2] = LineIds[i] => r \in {<<ML[i].t, LineIds[i], 1>>, <<ML[i].g, LineIds[i], 2>>}
+                   \* a line that carries the gene id only hangs below its gene (level 2) and below nothing else
+                   /\ \A i \in 1..Len(ML) : (ML[i].ft \in {"sub", "other"} /\ ML[i].t = <<>>) =>
+                        /\ <<ML[i].g, LineIds[i], 2>> \in DBF.rels
+                        /\ \A r \in DBF.rels : r[2] = LineIds[i] => r = <<ML[i].g, LineIds[i], 2>>
 InvNoSelf == OK => \A r \in DBF.rels : r[1] # r[2]
 \* nothing else is stored: input lines plus derived transcripts / genes
 InvNothingElse == OK => \A f \in ToSet(DBF.feats) : f.id \in ToSet(LineIds) \cup Ts \cup Gs
